@@ -154,8 +154,31 @@ let run_mem (infile : string) (outfile : string) =
              let bgs = List.rev !pending_bg in
              pending_bg := [];
              let srv0 = ref !srv in
-             let evs = List.map (fun (c, ms, a, o) ->
+             let evs = List.map (fun (c, ms, a, o, _) ->
                  { bg_conn = z_of_string c; bg_ms = z_of_string ms; bg_args = a; bg_hint = parse_reply o }) bgs in
+             let lname a = (match a with x :: _ -> String.lowercase_ascii (string_of_bytes x) | [] -> "") in
+             let bg_blocks = List.exists (fun (_, _, a, _, _) -> let n = lname a in n = "blpop" || n = "brpop") bgs in
+             (* several blocked pops at once (a background command is itself BLPOP/BRPOP): the
+                multi-popper process of Mem/ListsMulti.v; also run as a cross-check of the
+                single-popper replay whenever other connections act on a one-database server *)
+             let multi () =
+               srv_exec_multi !srv0 (z_of_string conn) (z_of_string nowms) args hint evs (z_of_string !watchdog_ms) in
+             if bg_blocks then begin
+               let (outs, s') = multi () in
+               srv := s';
+               (match outs with
+                | (r, tend) :: bouts ->
+                  expected_end := Some (string_of_z tend);
+                  let exp = canon_for_cmd name (print_reply r) in
+                  if exp <> obs then fail "reply" exp obs;
+                  (try List.iter2 (fun (_, _, a, o, e) (r, t) ->
+                       let ex = canon_for_cmd (lname a) (print_reply r) in
+                       if ex <> o then fail "bg-reply" ex o;
+                       (match !e with Some ms -> if ms <> string_of_z t then fail "bg-endtime" (string_of_z t) ms | None -> ()))
+                       bgs bouts
+                   with Invalid_argument _ -> fail "bg-count" "" "")
+                | [] -> fail "multi" "no-output" obs)
+             end else begin
              let (((r, outs), s'), tend) =
                srv_exec_bg !srv (z_of_string conn) (z_of_string now) (z_of_string nowms) args hint evs
                  (z_of_string !watchdog_ms) in
@@ -172,10 +195,19 @@ let run_mem (infile : string) (outfile : string) =
                if exp2 <> exp then fail "exec-vs-bg" exp2 exp;
                srv := s2
              end;
-             List.iter2 (fun (_, _, a, o) r ->
-                 let n = (match a with x :: _ -> String.lowercase_ascii (string_of_bytes x) | [] -> "") in
-                 let e = canon_for_cmd n (print_reply r) in
-                 if e <> o then fail "bg-reply" e o) bgs outs
+             List.iter2 (fun (_, ms0, a, o, e) r ->
+                 let ex = canon_for_cmd (lname a) (print_reply r) in
+                 if ex <> o then fail "bg-reply" ex o;
+                 (* a non-blocking background command returns at the instant it was issued *)
+                 (match !e with Some ms -> if ms <> ms0 then fail "bg-endtime" ms0 ms | None -> ())) bgs outs;
+             (* the two replay models agree (one-database servers: the multi model acts on one database) *)
+             if bgs <> [] && List.length (!srv0).sdbs = 1 then begin
+               let (mouts, _) = multi () in
+               let a = List.map (fun (r, _) -> print_reply r) mouts
+               and b = List.map print_reply (r :: outs) in
+               if a <> b then fail "multi-vs-bg" (String.concat " " a) (String.concat " " b)
+             end
+             end
            end else begin
            let (r, s') = srv_exec !srv (z_of_string conn) (z_of_string now) (z_of_string nowms) args hint in
            (if name = "incrbyfloat" then begin
@@ -193,8 +225,12 @@ let run_mem (infile : string) (outfile : string) =
         let left = split_ws (String.sub l 0 bar) in
         let obs = String.trim (String.sub l (bar + 1) (String.length l - bar - 1)) in
         (match left with
-         | _ :: _ :: nowms :: conn :: args -> pending_bg := (conn, nowms, List.map unhx args, obs) :: !pending_bg
+         | _ :: _ :: nowms :: conn :: args -> pending_bg := (conn, nowms, List.map unhx args, obs, ref None) :: !pending_bg
          | _ -> failwith "bad G line")
+      end else if starts_with l "GT " then begin
+        (match !pending_bg, split_ws l with
+         | (_, _, _, _, e) :: _, [_; ms] -> e := Some ms
+         | _ -> ())
       end else if starts_with l "WD " then begin
         (match split_ws l with [_; ms] -> watchdog_ms := ms | _ -> ())
       end else if starts_with l "T " then begin
